@@ -156,6 +156,114 @@ Section G.
     - eapply Permutation_NoDup; [|exact Hd]. apply Permutation_map, Permutation_sym, H1.
     - rewrite H1, H2. exact P.
   Qed.
+
+  (* ---------- importing a group ---------- *)
+  Lemma hm_get_insert k k' v m :
+    hm_get V k (hm_insert V k' v m) = if str_eqb k k' then Some v else hm_get V k m.
+  Proof.
+    induction m as [|[k2 v2] m IH]; cbn.
+    - destruct (str_eqb k k'); reflexivity.
+    - destruct (str_eqb_spec k' k2) as [->|Hne]; cbn.
+      + destruct (str_eqb k k2); reflexivity.
+      + destruct (str_eqb_spec k k2) as [->|Hne2].
+        * destruct (str_eqb_spec k2 k') as [E|_]; [exfalso; apply Hne; now symmetry|]. reflexivity.
+        * exact IH.
+  Qed.
+
+  Lemma hm_insert_key_set k v m x :
+    In x (map fst (hm_insert V k v m)) <-> x = k \/ In x (map fst m).
+  Proof.
+    induction m as [|[k2 v2] m IH]; cbn.
+    - split; [intros [H|[]]; left; now symmetry | intros [H|[]]; left; now symmetry].
+    - destruct (str_eqb_spec k k2) as [->|Hne]; cbn.
+      + split; [intros [H|H]; [left; now symmetry | right; now right] | intros [H|[H|H]]; [left; now symmetry | now left | now right]].
+      + rewrite IH. split; [intros [H|[H|H]]; [right; now left | now left | right; now right]
+                           | intros [H|[H|H]]; [right; now left | now left | right; now right]].
+  Qed.
+
+  Lemma hm_insert_nodup k v m : NoDup (map fst m) -> NoDup (map fst (hm_insert V k v m)).
+  Proof.
+    induction m as [|[k2 v2] m IH]; cbn; intro Hd.
+    - constructor; [intros []|constructor].
+    - destruct (str_eqb_spec k k2) as [->|Hne]; cbn; [exact Hd|].
+      inversion Hd as [|? ? Hn Hd']; subst. constructor; [|now apply IH].
+      rewrite hm_insert_key_set. intros [H|H]; [apply Hne; now symmetry | now apply Hn].
+  Qed.
+
+  Lemma hm_extend_nodup g : forall m, NoDup (map fst m) -> NoDup (map fst (hm_extend V m g)).
+  Proof.
+    induction g as [|[k v] g IH]; intros m Hd; [exact Hd|]. cbn. apply IH. now apply hm_insert_nodup.
+  Qed.
+
+  Lemma hm_get_none k m : ~ In k (map fst m) -> hm_get V k m = None.
+  Proof.
+    induction m as [|[k2 v2] m IH]; cbn; intro Hn; [reflexivity|].
+    destruct (str_eqb_spec k k2) as [->|Hne]; [exfalso; apply Hn; now left|]. apply IH. intro H. apply Hn. now right.
+  Qed.
+
+  (* the imported entries win, the others stay *)
+  Lemma hm_get_extend k g : forall m, NoDup (map fst g) ->
+    hm_get V k (hm_extend V m g) = match hm_get V k g with Some v => Some v | None => hm_get V k m end.
+  Proof.
+    induction g as [|[k1 v1] g IH]; intros m Hd; [reflexivity|].
+    change (hm_extend V m ((k1, v1) :: g)) with (hm_extend V (hm_insert V k1 v1 m) g).
+    inversion Hd as [|? ? Hn Hd']; subst. rewrite (IH _ Hd'). cbn [hm_get].
+    destruct (str_eqb_spec k k1) as [->|Hne].
+    - rewrite (hm_get_none k1 g Hn), hm_get_insert.
+      destruct (str_eqb_spec k1 k1) as [_|C]; [reflexivity | exfalso; now apply C].
+    - destruct (hm_get V k g); [reflexivity|]. rewrite hm_get_insert.
+      destruct (str_eqb_spec k k1) as [E|_]; [exfalso; now apply Hne | reflexivity].
+  Qed.
+
+  Lemma hm_get_in k v m : NoDup (map fst m) -> (hm_get V k m = Some v <-> In (k, v) m).
+  Proof.
+    induction m as [|[k2 v2] m IH]; cbn; intro Hd; [split; [discriminate | intros []]|].
+    inversion Hd as [|? ? Hn Hd']; subst.
+    destruct (str_eqb_spec k k2) as [->|Hne].
+    - split; [intro H; inversion H; now left|].
+      intros [H|H]; [inversion H; reflexivity|]. exfalso. apply Hn. apply (in_map fst) in H. exact H.
+    - rewrite (IH Hd'). split; [intro H; now right|]. intros [H|H]; [inversion H; subst; exfalso; now apply Hne | exact H].
+  Qed.
+
+  Lemma nodup_keys_entries (m : list entry) : NoDup (map fst m) -> NoDup m.
+  Proof. intro H. eapply NoDup_map_inv. exact H. Qed.
+
+  (* two maps with the same lookups hold the same entries *)
+  Lemma hm_ext_perm m1 m2 :
+    NoDup (map fst m1) -> NoDup (map fst m2) -> (forall k, hm_get V k m1 = hm_get V k m2) -> Permutation m1 m2.
+  Proof.
+    intros H1 H2 E. apply NoDup_Permutation; [now apply nodup_keys_entries | now apply nodup_keys_entries|].
+    intros [k v]. rewrite <- (hm_get_in k v m1 H1), <- (hm_get_in k v m2 H2), E. reflexivity.
+  Qed.
+
+  Lemma hm_build_nodup ins : NoDup (map fst (hm_build V ins)).
+  Proof. unfold hm_build. apply (hm_extend_nodup ins []). constructor. Qed.
+
+  (* import_group = adding the files of the other group directly, whatever the iteration order of the other group's map
+     (`pg`: any permutation of its entries) and whatever the receiving group already holds (same paths are replaced) *)
+  Theorem import_group_as_direct_add (render : entry -> str) (o1 o2 : list entry -> list entry) a g pg :
+    (forall l, Permutation (o1 l) l) -> (forall l, Permutation (o2 l) l) ->
+    NoDup (map fst g) -> Permutation pg g ->
+    emit V render o1 (hm_extend V (hm_build V a) pg) = emit V render o2 (hm_build V (a ++ g)).
+  Proof.
+    intros H1 H2 Hg P.
+    assert (Hpg : NoDup (map fst pg)) by (eapply Permutation_NoDup; [|exact Hg]; apply Permutation_map, Permutation_sym, P).
+    assert (Eb : hm_build V (a ++ g) = hm_extend V (hm_build V a) g) by (unfold hm_build, hm_extend; apply fold_left_app).
+    rewrite Eb.
+    assert (D1 : NoDup (map fst (hm_extend V (hm_build V a) pg))) by (apply hm_extend_nodup, hm_build_nodup).
+    assert (D2 : NoDup (map fst (hm_extend V (hm_build V a) g))) by (apply hm_extend_nodup, hm_build_nodup).
+    unfold emit. f_equal. apply sort_order_independent.
+    - eapply Permutation_NoDup; [|exact D1]. apply Permutation_map, Permutation_sym, H1.
+    - rewrite H1, H2. apply hm_ext_perm; [exact D1 | exact D2|].
+      intro k. rewrite (hm_get_extend k pg _ Hpg), (hm_get_extend k g _ Hg).
+      assert (Eg : hm_get V k pg = hm_get V k g).
+      { destruct (hm_get V k g) as [v|] eqn:E1.
+        - apply (hm_get_in k v g Hg) in E1. apply (hm_get_in k v pg Hpg). eapply Permutation_in; [apply Permutation_sym, P | exact E1].
+        - destruct (hm_get V k pg) as [v|] eqn:E2; [|reflexivity].
+          apply (hm_get_in k v pg Hpg) in E2. assert (In (k, v) g) by (eapply Permutation_in; [exact P | exact E2]).
+          apply (hm_get_in k v g Hg) in H. rewrite H in E1. discriminate. }
+      rewrite Eg. reflexivity.
+  Qed.
 End G.
 
 (* with emission in raw iteration order (the code before the repair) two iteration orders of a
